@@ -28,13 +28,13 @@ Theorem C10_unknown_token : forall s rec m tok fs un, find_field m (t_num tok) =
   Some (fs, if m_capture m then un ++ spec_tag (t_num tok) (t_wt tok) ++ t_raw tok else un).
 Proof. intros s rec m tok fs un H. unfold apply_token. rewrite H. cbn [fst snd]. destruct (m_capture m); reflexivity. Qed.
 Theorem C10_unmarshal_is_reference_decoder : forall s progs idx data t0,
-  gen_all s = GOk progs -> tdec_applies s = true -> Dec.SafetyProofs.bytes_ok data ->
+  gen_all s = GOk progs -> tdec_applies_at s idx = true -> Dec.SafetyProofs.bytes_ok data ->
   let r := pico_unmarshal progs idx data t0 in
   match ref_decode (S (S (S (length data)))) s idx data t0 with
   | Some t'' => fst r = None /\ snd r = t''
   | None => fst r <> None
   end.
-Proof. exact T_dec_b. Qed.
+Proof. exact T_dec_at. Qed.
 
 Example C10_nonvacuous : consume_field_value 5 StartGroupType [8; 1; 44] = 3 /\ consume_field_value 5 StartGroupType [8; 1; 52] = errEndGroup.
 Proof. split; vm_compute; reflexivity. Qed.
